@@ -84,6 +84,35 @@ CHECKS = {
                   "covered by correspondence and oracle only, not by the theorem (partial there). No axioms.",
         technique="Rocq invariant proof over all histories and prefixes + correspondence (vm_compute) + oracle",
         ref="§C07"),
+    "C08": dict(
+        text="C08_number: for every finite non-zero binary floating-point value (any mantissa/exponent: subnormals, "
+             "powers of two, beyond 1e15) and every decimal_places, the declarative model of numpy's Dragon4 call "
+             "produces digits with at most dp fractional places whose value lies in the float's own rounding interval "
+             "or -- only at the cut-off -- within half a unit of the dp-th place (case analysis on the low/high "
+             "acceptance tests, generation loop proved total). C08_plain_decimal: the printed text is '-'? digits "
+             "('.' digits)? and nothing else. C08_zero / C08_reject. The model is compared text-exactly with "
+             "DefaultFormatter.number on thousands of structured doubles/float32/float16/ints per run; raw lines of "
+             "every builder command x config go through an independent block grammar; parameters()/command() are "
+             "exercised with numpy scalar types on axis and non-axis words.",
+        note=TB + "numpy's Dragon4 itself is modelled (declaratively), not verified: the tie is the text-exact "
+                  "correspondence. The line-level clauses are proved on the text model in props/C09.v and checked "
+                  "on raw bytes by the harness grammar. No axioms.",
+        technique="Rocq proof about a declarative Dragon4 model + text-exact correspondence (vm_compute) + value oracle",
+        ref="§C08"),
+    "C09": dict(
+        text="C09_inert: for every byte string, every supported comment style (prefix symbols of 1-2 bytes; all "
+             "bracketed styles of the table regenerated from /repo, incl. the two-byte '/*' '*/') and every entry "
+             "point's statement shape, what an independent comment-stripping lexer leaves is the formatted words "
+             "only -- independent of the text (proved via: Python str.replace leaves no occurrence of the pattern, "
+             "blanks cannot splice one, the first closer after the opener is the real one). C09_lines: no CR/LF "
+             "comes out of the comment. Correspondence: fmt_comment = DefaultFormatter.comment byte for byte; "
+             "oracle: 12 entry points x 10 styles x adversarial texts compared with the innocuous text through the "
+             "lexer, plus style switches on a live builder.",
+        note=TB + "Hypothesis: the formatted words do not contain the first byte of the comment opener (letters, "
+                  "digits, '.', '-' and blanks never do for the supported styles). The '{' style raises before "
+                  "anything is emitted and is outside. No axioms.",
+        technique="Rocq proof over all byte strings + byte-exact correspondence (vm_compute) + lexer oracle",
+        ref="§C09"),
     "C17": dict(
         text="Theorems C17_conservation and C17_lines_are_cut (coq/props/C17.v) hold for every byte stream, every "
              "fragmentation into chunks of any size, every placement of read timeouts, after every number of "
